@@ -155,6 +155,13 @@ def normalize_tests(tree):
             elif isinstance(n, ast.IfExp) and isinstance(n.test, ast.UnaryOp) and isinstance(n.test.op, ast.Not):
                 n.test = n.test.operand
                 n.body, n.orelse = n.orelse, n.body
+        if isinstance(n, ast.If) and n.orelse and isinstance(n.test, ast.BoolOp) and len(n.test.values) > 1 and \
+                all(isinstance(v, ast.UnaryOp) and isinstance(v.op, ast.Not) for v in n.test.values) and \
+                not (len(n.orelse) == 1 and isinstance(n.orelse[0], ast.If) and n.orelse[0].col_offset == n.col_offset):
+            # `if not a or not b: X else: Y` reads `if a and b: Y else: X` (De Morgan, branches swapped)
+            op = ast.And() if isinstance(n.test.op, ast.Or) else ast.Or()
+            n.test = ast.copy_location(ast.BoolOp(op=op, values=[v.operand for v in n.test.values]), n.test)
+            n.body, n.orelse = n.orelse, n.body
         if isinstance(n, ast.If) and n.orelse and all(isinstance(x, ast.Pass) for x in n.orelse):
             n.orelse = []
         if isinstance(n, ast.comprehension):
